@@ -68,10 +68,11 @@ class LabeledUnicast(NLRI):
             prefix_byte_len = nlri_byte_len - label_byte_len
             prefix_mask = nlri_bit_len - label_byte_len * 8
             if cls.AFI == AFNUM_INET:
-                prefix_hex = nlri_data[offset - prefix_byte_len: offset] + (4 - prefix_byte_len) * b'\x00'
+                prefix_hex = cls.clear_trailing_bits(nlri_data[offset - prefix_byte_len: offset], prefix_mask) + \
+                    (4 - prefix_byte_len) * b'\x00'
                 prefix = str(netaddr.IPAddress(int(binascii.b2a_hex(prefix_hex), 16))) + '/' + str(prefix_mask)
             elif cls.AFI == AFNUM_INET6:  # ipv6
-                prefix_hex = nlri_data[offset - prefix_byte_len: offset]
+                prefix_hex = cls.clear_trailing_bits(nlri_data[offset - prefix_byte_len: offset], prefix_mask)
                 for i in range(0, (128 - prefix_mask) // 8):
                     prefix_hex += b'\x00'
                 prefix = str(netaddr.IPAddress(int(binascii.b2a_hex(prefix_hex), 16), 6)) + '/' + str(prefix_mask)
